@@ -2,6 +2,8 @@ import OtelVerif.Common.Line
 import OtelVerif.Model.C03
 import OtelVerif.Model.C03Replay
 import OtelVerif.Model.C03Mon
+import OtelVerif.Model.C03Direct
+import OtelVerif.Model.C03Cfg
 /-! driver for C03: model `c03-shutdown` — the Lean monitor `C03.verdict` evaluated on the recorded trace of the real exporter -/
 open OtelVerif OtelVerif.Line OtelVerif.C03
 
@@ -33,6 +35,9 @@ structure S where
   direct : Bool := false    -- no sending queue and no batcher: export calls run on the callers' goroutines
   tevs : List OtelVerif.C03.Replay.TEv := []    -- reversed: the full trace for the replay through `fire`
   ends : List (Nat × Bool × Bool × Bool) := []   -- (call, failed, permanent, retries were left)
+  -- the options (from the `cfg` op) and the runtime object read off the real exporter by reflection (`tr rt`)
+  ucfg : Option OtelVerif.C03.UCfg := none
+  rtObs : Option (List String) := none
 
 def handler : Handler S where
   init := {}
@@ -42,6 +47,9 @@ def handler : Handler S where
       match kvNat rest "persistent", kvNat rest "batch", kvNat rest "queue", kvNat rest "retry", kvNat rest "consumers", kvNat rest "maxelapsed" with
       | some p, some b, some _, some r, some nc, some me =>
         ({ s with persistent := p == 1, batch := b, haveCfg := true, retry := r == 1, maxElapsed := me, consumers := nc,
+                  ucfg := some { queueEnabled := kvNat rest "queue" == some 1, storage := p == 1, wfr := kvNat rest "wfr" == some 1,
+                                 itemsSized := kv rest "sizer" == some "items", numConsumers := nc, queueBatch := b == 1,
+                                 legacyBatcher := b == 2, flushTimeout := (kvNat rest "flush").getD 0 > 0, retry := r == 1, numCPU := 1 },
                   direct := kvNat rest "queue" == some 0 && b == 0,
                   wrap := kvNat rest "wrap" == some 1, wfr := kvNat rest "wfr" == some 1 || kvNat rest "queue" == some 0,
                   itemsSized := kv rest "sizer" == some "items" && kvNat rest "queue" == some 1 }, [])
@@ -87,6 +95,7 @@ def handler : Handler S where
         | none => { s with bad := some "ms" }
       | _, _, _, _, _, _ => { s with bad := some "ms" }
     | "tr" :: "gauge" :: _ => s
+    | "tr" :: "rt" :: rest => { s with rtObs := some rest }
     | ["tr", "wshut"] => { s with tevs := .wshut :: s.tevs }
     | ["tr", "uac", op] => { s with uac := some op }
     | ["tr", "stored", ids] =>
@@ -111,7 +120,10 @@ def handler : Handler S where
     | none =>
       let t := s.evs.reverse
       let v := verdict t
-      let v := if s.direct then { v with openCalls := [] } else v
+      -- queue-less exporter: export calls run on the callers' goroutines (Shutdown does not wait for them: `openCalls` not applied);
+      -- a caller may come at any time, so a FIRST attempt may begin after the return — a RETRY may not (`Direct.lateRetries`, sound:
+      -- C03_check_direct_sound; accepts the trace of every run of the direct-mode LTS: C03_direct_bridge)
+      let v := if s.direct then { v with openCalls := [], lateCalls := OtelVerif.C03.Direct.lateRetries t } else v
       let kind := if s.direct then "direct" else if s.persistent then "persistent" else "memory"
       let und := if s.persistent then lostPersistent t s.stored else v.undrained
       let unrec := if s.persistent then (lostPersistent t s.recovered).filter (fun x => s.stored.contains x) else []
@@ -147,15 +159,35 @@ def handler : Handler S where
         else "prop quiet=ok"
       -- the strengthened tie: the recorded trace must be a run of the LTS (hidden steps inferred, every fired label enabled)
       let batching := s.batch != 0
+      -- configuration glue: the runtime object the constructors built (reflection) must be what `derive` computes from the options
+      let derived : Option OtelVerif.C03.RT := s.ucfg.bind (fun u =>
+        OtelVerif.C03.derive { u with numCPU := (s.rtObs.bind (fun r => kvNat r "numcpu")).getD 1 })
+      let b01 := fun (b : Bool) => if b then "1" else "0"
+      let pDerive :=
+        match s.rtObs, s.ucfg with
+        | none, _ => "prop derive=skipped"
+        | _, none => "prop derive=FAIL sig=C03/harness/no-cfg"
+        | some r, some u =>
+          let want := match derived with
+            | none => s!"qs=0 retry={b01 u.retry}"
+            | some rt => s!"qs=1 retry={b01 rt.cfg.retry} persistent={b01 rt.cfg.persistent} wfr={b01 rt.cfg.wfr} consumers={rt.nCons} batching={b01 rt.cfg.batching} workers={rt.workers} timer={b01 rt.timer}"
+          let got := " ".intercalate (r.filter (fun t => !t.startsWith "numcpu="))
+          if got == want then "prop derive=ok"
+          else s!"prop derive=FAIL sig=C03/config/runtime-object-differs-from-derived got={got.replace " " ","} want={want.replace " " ","}"
       let pRefine :=
         if !v.returned || (batching && !s.wrap) || s.direct then "prop refine=skipped"
         else
           let tr := s.tevs.reverse
+          -- the LTS starts from the object `derive` computes (when the reflection line is there: checked equal to the real object above)
+          let rt : OtelVerif.C03.RT := match s.rtObs, derived with
+            | some _, some rt => { rt with cfg := { rt.cfg with itemsSized := s.itemsSized } }
+            | _, _ => { cfg := { persistent := s.persistent, batching := batching, retry := s.retry, wfr := s.wfr, itemsSized := s.itemsSized }
+                        nCons := if batching then 1 else s.consumers, workers := if batching then 1 else 0, timer := batching }
           let rc : OtelVerif.C03.Replay.RCfg :=
-            { cfg := { persistent := s.persistent, batching := batching, retry := s.retry, wfr := s.wfr, itemsSized := s.itemsSized }
-              nCons := if batching then 1 else s.consumers
-              workers := if batching then 1 else 0
-              timer := batching
+            { cfg := rt.cfg
+              nCons := rt.nCons
+              workers := rt.workers
+              timer := rt.timer
               stored := s.stored
               sends := tr.filterMap (fun e => match e with | .ss rid ids => some (rid, ids) | _ => none) }
           let rs := OtelVerif.C03.Replay.replay rc tr
@@ -165,7 +197,7 @@ def handler : Handler S where
       let pStore := match s.uac with
         | some op => s!"prop storage=FAIL sig=C03/persistent/storage-used-after-close op={op}"
         | none => "prop storage=ok"
-      [obs, pReturned, pDrained, pIntr, pIntrRec, pRecover, pOnce, pQuiet, pStore, pRefine]
+      [obs, pReturned, pDrained, pIntr, pIntrRec, pRecover, pOnce, pQuiet, pStore, pRefine, pDerive]
 
 end OtelVerif.Drivers.C03
 
